@@ -89,7 +89,22 @@ package input
 //@ props C10 C12
 //@ modifies pt.Time, mapof(pt.Fields), mapof(pt.Tags), mapof(pt.Meta)
 
-//@ sweep[C10] (*Point).GetMeasurement GetPoint
+//@ sweep[C10] (*Point).GetMeasurement
+
+//@ func GetPoint
+//@ props C10 C15
+//@ modifies nothing
+//@ ensures result != nil
+
+// the state the point is handed back in (what a caller printed must agree with it)
+//@ func PutPoint
+//@ props C10 C15
+//@ noinv pt
+//@ observe m string = pt.Measurement
+//@ observe tags map[string]string = pt.Tags
+//@ observe fields map[string]any = pt.Fields
+//@ observe time time.Time = pt.Time
+//@ observe drop bool = pt.Drop
 
 // the host hands in a tag map and a field map with disjoint keys and field values of the
 // supported Go types (input validity is a precondition; the property quantifies over the
@@ -100,8 +115,9 @@ package input
 //@ func InitPt
 //@ props C10 C15
 //@ noinv pt
-//@ requires f != nil ==> (forall k string :: dom(f, k) ==> supportedField(f[k]))
-//@ requires f != nil && t != nil ==> (forall k string :: dom(t, k) ==> !dom(f, k))
+//@ observe onlyMessage bool = t == nil && f != nil && (forall k string :: dom(f, k) <==> k == "message") && typeis(f["message"], string)
+//@ requires[C10] f != nil ==> (forall k string :: dom(f, k) ==> supportedField(f[k]))
+//@ requires[C10] f != nil && t != nil ==> (forall k string :: dom(t, k) ==> !dom(f, k))
 //@ ensures result == pt && pt.Measurement == m && !pt.Drop
 //@ loop 1
 //@ invariant pt.Fields == f && f != nil && pt.Tags == t && t != nil && pt.Meta != nil && fresh(pt.Meta)
